@@ -3,6 +3,7 @@ package gen
 import (
 	"fmt"
 	"math"
+	"time"
 
 	"github.com/shopspring/decimal"
 	"github.com/tyler-sommer/stick"
@@ -107,6 +108,7 @@ func Scalars() []Named {
 		N("complex", complex(1, 2)), N("func", func() {}), N("chan", make(chan int)), N("struct-empty", struct{}{}),
 		N("safe-str", stick.NewSafeValue("<i>", "html")), N("safe-num", stick.NewSafeValue(5, "html")), N("safe-nested", stick.NewSafeValue(stick.NewSafeValue(stick.NewSafeValue("deep", "js"), "html"), "css")), N("safe-nil", stick.NewSafeValue(nil, "html")),
 		N("rune", 'x'), N("byte", byte('y')), N("uintptr", uintptr(9)),
+		N("time", time.Date(2020, 2, 29, 13, 4, 5, 0, time.UTC)), N("str-now", "now"), N("str-NOW", "NOW"), N("ptr-time", &time.Time{}),
 	}
 	return out
 }
@@ -116,6 +118,8 @@ func Containers() []Named {
 	th := NewThing()
 	var nilSlice []int
 	var nilMap map[string]int
+	var nilValMap map[string]stick.Value
+	var nilValSlice []stick.Value
 	var nilPtrSlice *[]int
 	var nilPtrMap *map[string]stick.Value
 	var nilPtrThing *Thing
@@ -127,7 +131,7 @@ func Containers() []Named {
 		N("[]int{}", []int{}), N("[]int nil", nilSlice), N("[]int{10,20,30}", sl), N("*[]int", psl), N("**[]int", ppsl),
 		N("[]string", []string{"x", "y"}), N("[]Value", []stick.Value{1, "s", nil, true}), N("[]float64", []float64{1.5, 2.5}), N("[3]int", [3]int{7, 8, 9}), N("*[3]int", &[3]int{7, 8, 9}), N("[0]int", [0]int{}),
 		N("[][]int", [][]int{{1}, {2, 3}}), N("[]Thing", []Thing{th}), N("[]*Thing", []*Thing{&th, nil}), N("[]interface{}", []interface{}{nil, 1}),
-		N("map[string]Value", m), N("*map[string]Value", &m), N("map[string]int nil", nilMap), N("map[string]int{}", map[string]int{}), N("map[string]string", map[string]string{"k": "v", "1": "one"}),
+		N("map[string]Value", m), N("*map[string]Value", &m), N("map[string]int nil", nilMap), N("map[string]Value nil", nilValMap), N("[]Value nil", nilValSlice), N("map[string]int{}", map[string]int{}), N("map[string]string", map[string]string{"k": "v", "1": "one"}),
 		N("map[int]string", map[int]string{1: "one", 2: "two"}), N("map[float64]int", map[float64]int{1.5: 15, 2: 20}), N("map[bool]int", map[bool]int{true: 1}),
 		N("map[Value]Value", map[stick.Value]stick.Value{"s": 1, 2: "two", true: 3}), N("map[uint8]int", map[uint8]int{200: 1}), N("map[ValStringer]int", map[ValStringer]int{{"k"}: 1}),
 		N("map[string][]int", map[string][]int{"l": {1, 2}}), N("map[string]map", map[string]map[string]int{"o": {"i": 1}}),
